@@ -81,6 +81,8 @@ class C12(Property):
     title = "Timing wheel fires every timer exactly once, at its due tick"
     quick_cases = 420
     thorough_cases = 8000
+    exec_budget_s = 300      # quick tier: stop executing further generated cases after this long (see _run_chunks)
+    skipped_for_time = 0
     design_ref = "DESIGN.md §6/C12"
     level_text = ("Unbounded Rocq theorems (every wheel size, interval, history of Set/Move/Remove/Tick/Drain/Stop calls, "
                   "valid or rejected): the wheel model (flat and pointer-level) refines the map key->(remaining ticks,value); "
@@ -181,6 +183,15 @@ class C12(Property):
             dict(w(3, 10, [["set", 1, 900, 10], ["set", 2, 901, 10], ["set", 3, 900, 20], ["set", 4, 4, 20], ["set", 5, 5, 40]]
                    + T * 2 + [["release", 901]] + T * 2 + [["release", 900], ["drain"]]), hold=[900, 901]),
         ]
+        # seed C12-8: one callback held open while more than numSlots further ticks have due timers (a wheel that
+        # hands the batches to ONE executor over a channel of numSlots batches stops taking ticks and calls)
+        cs += [
+            dict(w(2, 10, [["set", 1, 900, 10], ["tick"], ["set", 2, 2, 10], ["tick"], ["set", 3, 3, 10], ["tick"], ["set", 4, 4, 10],
+                           ["tick"], ["set", 5, 5, 10], ["tick"], ["set", 6, 6, 20], ["tick"], ["tick"], ["release", 900], ["drain"]]),
+                 hold=[900]),
+            dict(w(1, 10, [["set", 1, 900, 10], ["tick"], ["set", 2, 700, 10], ["tick"], ["set", 3, 3, 10], ["tick"], ["tick"],
+                           ["release", 900], ["tick"]], "fake"), hold=[900], react={"700": ["set", 2, 7, 10]}),
+        ]
         # a callback re-arms its own key / removes another / drains from inside; Stop with callbacks running
         cs += [
             dict(w(4, 10, [["set", 1, 700, 10], ["set", 2, 900, 10], ["set", 3, 5, 30], ["tick"], ["tick"], ["set", 4, 702, 10],
@@ -190,6 +201,21 @@ class C12(Property):
                            ["release", 900], ["drain"]], "fake"), hold=[900]),
             dict(w(3, 10, [["set", 1, 900, 10], ["set", 2, 901, 20], ["set", 3, 8, 20], ["tick"], ["drain"], ["release", 901],
                            ["release", 900]]), hold=[900, 901]),
+        ]
+        # MoveTimer / RemoveTimer / SetTimer on a key whose callback is running right now (its timer is gone:
+        # Move and Remove find nothing, Set starts a new timer that fires while the old callback still runs)
+        cs += [
+            dict(w(3, 10, [["set", 1, 900, 10], ["set", 2, 5, 30], ["tick"], ["move", 1, 20], ["remove", 1], ["tick"],
+                           ["set", 1, 7, 10], ["move", 1, 20], ["tick"], ["tick"], ["release", 900], ["tick"], ["drain"]]),
+                 hold=[900]),
+            dict(w(1, 10, [["set", 1, 900, 10], ["tick"], ["move", 1, 5], ["set", 1, 901, 10], ["tick"], ["move", 1, 3],
+                           ["release", 901], ["release", 900], ["tick"]], "fake"), hold=[900, 901]),
+            # one slot: every delay is whole revolutions; delays that are not multiples of the interval
+            w(1, 7, [["set", 1, 5, 7], ["set", 2, 6, 20], ["set", 3, 7, 13], ["tick"], ["move", 2, 27], ["tick"], ["set", 3, 8, 8],
+                     ["tick"], ["tick"], ["tick"], ["remove", 2], ["tick"], ["drain"]], "buf"),
+            # delays near the top of time.Duration on a 1 us wheel (steps ~ 2^52: circle arithmetic, never due)
+            w(7, 1000, [["set", 1, 5, 2 ** 62], ["set", 2, 6, 3 * 2 ** 61], ["tick"], ["move", 1, 2 ** 62 + 1024], ["set", 3, 7, 2000],
+                        ["tick"], ["tick"], ["move", 2, 3000], ["tick"], ["tick"], ["tick"], ["drain"]]),
         ]
         for (n, i, e) in [(0, 10, True), (-3, 10, True), (4, 0, True), (4, -1, True), (4, 1000000, False),
                           (4, 1000000, True), (1, 1, True), (0, 0, False)]:
@@ -211,12 +237,23 @@ class C12(Property):
         # seed C06-9 through the wheel: two clean tasks of different stores about the same cache key, the first still pending
         cs.append({"kind": "cleaner", "ops": [["add", 0, 2, 7], ["add", 1, 1, 7]] + T * 8})
         cs.append({"kind": "cleaner", "ops": [["add", 0, 3, 7], ["tick"], ["tick"], ["add", 1, 0, 7]] + T * 70})
+        # core/timex/ticker.go itself: the FakeTicker's channel (one tick buffered, blocked Ticks, receivers,
+        # Stop = close: blocked senders panic, receivers get the zero value), Done/Wait, a real ticker
+        tk = lambda ops: {"kind": "ticker", "ops": [[o] for o in ops]}
+        cs += [
+            tk(["tick", "tick", "recv", "recv", "recv", "tick", "done", "wait", "wait", "done", "done", "wait", "stop",
+                "recv", "recv", "tick", "stop"]),
+            tk(["recv", "recv", "stop"]),
+            tk(["tick", "tick", "tick", "stop", "recv", "recv"]),
+            tk(["tick", "recv"] * 6 + ["stop"]),
+            {"kind": "ticker", "real_us": 500, "ops": []},
+        ]
         # seed C12-10 ("make up for dropped ticks"): the VALUE a tick carries is irrelevant.  A timer set after a
         # stall, then ONE tick stamped five intervals after the wheel was built / after the previous tick; stamps
         # that stand still, go backwards, the zero time, wall-clock-only times, the epoch; through the plain
         # wheel (rendezvous and buffered ticker), a gated wheel, the cache and the cleaner
         jump = lambda i, ks: [["tick", "b", k * i] for k in ks]
-        cs += [
+        first = [
             w(4, SEC, [["set", 1, 5, 3 * SEC]] + jump(SEC, [5]) + [["set", 2, 6, 3 * SEC]] + jump(SEC, [10, 11, 12])),
             w(5, 1000000, [["set", 1, 5, 4000000], ["set", 2, 6, 12000000]] + jump(1000000, [1000, 1000, 3000, 2000, 2001])
               + [["move", 2, 7000000]] + jump(1000000, [900000, 0, -5, 1000000]) + T * 4, "buf"),
@@ -230,18 +267,9 @@ class C12(Property):
                   ["get", 1], ["tick", "w", 1200 * SEC], ["tick", "b", -SEC], ["tick", "u", 0], ["tick", "b", 5000 * SEC]]),
             {"kind": "cleaner", "ops": [["add", 0, 2]] + jump(SEC, [30]) + [["add", 1, 1]] + jump(SEC, [60, 90, 91, 1000, 1001, 1002, 5000])},
         ]
-        # core/timex/ticker.go itself: the FakeTicker's channel (one tick buffered, blocked Ticks, receivers,
-        # Stop = close: blocked senders panic, receivers get the zero value), Done/Wait, a real ticker
-        tk = lambda ops: {"kind": "ticker", "ops": [[o] for o in ops]}
-        cs += [
-            tk(["tick", "tick", "recv", "recv", "recv", "tick", "done", "wait", "wait", "done", "done", "wait", "stop",
-                "recv", "recv", "tick", "stop"]),
-            tk(["recv", "recv", "stop"]),
-            tk(["tick", "tick", "tick", "stop", "recv", "recv"]),
-            tk(["tick", "recv"] * 6 + ["stop"]),
-            {"kind": "ticker", "real_us": 500, "ops": []},
-        ]
-        return cs
+        for x in first + cs:
+            x["corpus"] = True
+        return first + cs
 
     def gen(self, rng, n, tier):
         cases = []
@@ -555,7 +583,13 @@ class C12(Property):
 
     # ------------------------------------------------------------------ execution
     def execute(self, cases, ctx):
-        return self._execute(self.bin, cases)
+        self.exec_budget_s = max(300, len(cases) // 2)
+        obs = self._execute(self.bin, cases)
+        if self.skipped_for_time:
+            ctx.notes.append("%d generated cases not executed: the executor had used its time budget of %d s"
+                             % (self.skipped_for_time, self.exec_budget_s))
+            self.skipped_for_time = 0
+        return obs
 
     def _run_chunks(self, binpath, cases, env=None):
         """Raw executor results, one per case.  One executor process per 400 cases (every collection.Cache
@@ -564,14 +598,26 @@ class C12(Property):
         into the wheel did not return, callbacks never came to rest) or crashes on it: that case is run once
         more, alone, in a fresh process; if it fails again it is reported as a history the implementation did
         not complete (CStuck), and the run goes on with the cases after it."""
+        import time
         res = []
         pending = list(cases)
         stuck = 0
+        t0 = time.time()
+        first = True
         while pending:
             if stuck >= 2:      # two confirmed already: do not spend minutes per case on a tree that hangs
                 res += [{"skipped": True} for _ in pending]
                 break
-            chunk, pending = pending[:400], pending[400:]
+            if time.time() - t0 > self.exec_budget_s and len(cases) > 200:
+                # (a correct tree needs 10-30 s for a quick run; a tree whose ticks take seconds each would need hours)
+                self.skipped_for_time = len(pending)
+                res += [{"skipped": True} for _ in pending]
+                break
+            # the fixed corpus first, in a process of its own; then chunks of 150
+            k0 = sum(1 for c in pending if c.get("corpus")) if first else 0
+            first = False
+            size = k0 if 0 < k0 < len(pending) else 150
+            chunk, pending = pending[:size], pending[size:]
             rc, out, r = vlib.go_run(binpath, chunk, tag="c12", timeout=900, env=env)
             if rc == 0 and len(r) == len(chunk):
                 res += r
